@@ -86,9 +86,17 @@ def main():
         exc_s = None
         signal.setitimer(signal.ITIMER_VIRTUAL, 6.0)
         ARMED[0] = True
+        leak = None
         try:
             res = emit(parse(text))
             outcome = "str" if isinstance(res, str) else f"returned:{type(res).__name__}"
+            if isinstance(res, str):
+                # the repr of a live host object (class, builtin, bound method, memory address) inside the firmware text means
+                # an attribute of a host object was looked up on behalf of the script
+                import re as _re
+                m = _re.search(r"<(?:class|built-in|method-wrapper|function|module|bound method|slot wrapper|attribute|member)[ '][^>\n]{0,80}>| object at 0x[0-9a-fA-F]+", res)
+                if m and m.group(0) not in text:
+                    leak = m.group(0)[:100]
         except Timeout:
             outcome = "timeout"
         except ValueError as exc:  # includes UnicodeError subclasses (text that cannot be source code)
@@ -119,7 +127,7 @@ def main():
         bad = [e for e in EVENTS if e[0] != "compile" and not (e[0] == "open" and e[1].split("|")[0] in ("<unknown>", "<string>") and e[1].endswith("|rb"))]
         out.write(json.dumps({"i": idx, "phase": "done", "outcome": outcome, "exc": exc_s, "cpu": round(cpu, 3),
                               "events": bad[:10], "n_compile": sum(1 for e in EVENTS if e[0] == "compile"),
-                              "canary": canary_hit, "env_changed": env_changed, "state_changed": state_changed}) + "\n")
+                              "canary": canary_hit, "env_changed": env_changed, "state_changed": state_changed, "host_leak": leak}) + "\n")
         out.flush()
     out.write(json.dumps({"phase": "finished"}) + "\n")
     out.close()
